@@ -1,10 +1,10 @@
 #!/bin/bash
 # usage: store_seeded.sh <ID> <N> <property> "<needs>" "<caught-by>" "<ran>"
 ID="$1"; N="$2"; PROP="$3"; NEEDS="$4"; CAUGHT="$5"; RAN="$6"
-D=/verif/seeded/$ID-$N; mkdir -p $D
-cp /tmp/seed-$ID/out/$N/patch.diff $D/patch.diff
-cp /tmp/seed-$ID/out/$N/demo*.go $D/ 2>/dev/null
-cp /tmp/seed-$ID/out/$N/README.txt $D/README.txt
+D=/verif/seeded/$ID-${SEEDTAG:-}$N; mkdir -p $D
+cp ${SEEDPFX:-/tmp/seed-}$ID/out/$N/patch.diff $D/patch.diff
+cp ${SEEDPFX:-/tmp/seed-}$ID/out/$N/demo*.go $D/ 2>/dev/null
+cp ${SEEDPFX:-/tmp/seed-}$ID/out/$N/README.txt $D/README.txt
 python3 - "$D" "$PROP" "$NEEDS" "$CAUGHT" "$RAN" <<'PY'
 import json,sys
 d,prop,needs,caught,ran=sys.argv[1:6]
